@@ -905,8 +905,15 @@ def progress_rules(run, model, rule='HSM-PROGRESS'):
                 # discharged by I1: one operand is the search result (assigned from temp.fun in the search loop), the other starts as state.fun
                 defs = local_defs(f.node)
 
-                def origins(v):
-                    return {dotted(d) for d in defs.get(v, []) if not isinstance(d, tuple) and dotted(d)}
+                def origins(v, depth=3):
+                    out_ = set()
+                    for d in defs.get(v, []):
+                        if isinstance(d, tuple) or not dotted(d):
+                            continue
+                        out_.add(dotted(d))
+                        if isinstance(d, ast.Name) and d.id != v and depth > 0:      # a copy of another local (a helper's parameter written out by the inliner)
+                            out_ |= origins(d.id, depth - 1)
+                    return out_
                 o = origins(gcp[0].id) | origins(gcp[2].id)
                 ok = selfn + '.temp.fun' in o and selfn + '.state.fun' in o
                 # progress: each iteration re-reads the walker from the cursor after an EXIT (+SUPER) step
